@@ -424,6 +424,7 @@ def verify_contract(cdef: ContractDef, tier="quick") -> dict:
             g = groups.setdefault((kind, label), {"kind": kind, "label": label, "status": "discharged", "paths": 0, "time_s": 0.0, "backends": set(), "model": None, "smt2": None, "canary": None})
             g["paths"] += 1
             g["time_s"] += dt
+            g["max_query_s"] = round(max(g.get("max_query_s", 0.0), dt), 4)
             g["backends"].add(backend)
             # canary (DESIGN 2.7): a discharged obligation must not hold vacuously -- on at least
             # one of its paths `pc and goal` is satisfiable (the negated claim is refuted there)
